@@ -152,14 +152,34 @@ pub(super) mod udp {
     pub struct DatagramPacketCodec<'a, const N: usize> {
         codec: SessionCodec<'a, N>,
         session: Session<N>,
-        filter: PacketWindowFilter,
+        /// one replay window per server session, newest last: a server that starts a new session for this client
+        /// session (restart, expired association) numbers its packets from the beginning again
+        filters: Vec<(u64, PacketWindowFilter)>,
         /// only the 2022 edition numbers its packets
         replay_protected: bool,
     }
 
+    /// server sessions remembered per client session (the current one and its predecessors)
+    const MAX_SERVER_SESSIONS: usize = 4;
+
     impl<const N: usize> DatagramPacketCodec<'_, N> {
         pub fn new(codec: SessionCodec<N>, replay_protected: bool) -> DatagramPacketCodec<'_, N> {
-            DatagramPacketCodec { codec, session: Session::from(Mode::Client), filter: PacketWindowFilter::default(), replay_protected }
+            DatagramPacketCodec { codec, session: Session::from(Mode::Client), filters: Vec::with_capacity(MAX_SERVER_SESSIONS), replay_protected }
+        }
+
+        /// the replay window of a server session; the oldest one makes room for a new one
+        fn filter_of(&mut self, server_session_id: u64) -> &mut PacketWindowFilter {
+            let at = match self.filters.iter().position(|(id, _)| *id == server_session_id) {
+                Some(at) => at,
+                None => {
+                    if self.filters.len() == MAX_SERVER_SESSIONS {
+                        self.filters.remove(0);
+                    }
+                    self.filters.push((server_session_id, PacketWindowFilter::default()));
+                    self.filters.len() - 1
+                }
+            };
+            &mut self.filters[at].1
         }
     }
 
@@ -195,7 +215,7 @@ pub(super) mod udp {
             } else {
                 match self.codec.decode(src)? {
                     Some((content, addr, session)) => {
-                        if self.replay_protected && !self.filter.validate_packet_id(session.packet_id, u64::MAX) {
+                        if self.replay_protected && !self.filter_of(session.server_session_id).validate_packet_id(session.packet_id, u64::MAX) {
                             // a duplicate or stale packet is dropped (it has been consumed); the session goes on
                             warn!("[udp] packet_id out of window; session={}", session);
                             return Ok(None);
